@@ -112,6 +112,10 @@ Record hstep := mkStep {
   hs_ops : list op;            (* the step in model operations *)
   hs_tgt : option nat;         (* the object the call was made on (None: a construction) *)
   hs_raised : bool;            (* implementation: the call raised *)
+  hs_args_same : bool;         (* implementation: every caller-owned argument of the call (source
+                                  dictionary of add_entries, assigned value, ...) is deep-equal to what it
+                                  was before, and every dictionary still has its keys, its meta entries
+                                  and the very list objects it was built with *)
   hs_snap : snapshot           (* implementation: all objects after the step *)
 }.
 
@@ -124,7 +128,7 @@ Fixpoint hist_code (steps : list hstep) (s : state) (prev : snapshot) : nat :=
       let (s', r) := run_macro (hs_ops st) s in
       let c := bit 0 (Bool.eqb r (hs_raised st) && snapshot_eqb (snap_of_state s') (hs_snap st))
                + bit 1 (sepb (hs_snap st))
-               + bit 2 (frameb (hs_tgt st) prev (hs_snap st)) in
+               + bit 2 (frameb (hs_tgt st) prev (hs_snap st) && hs_args_same st) in
       match c with
       | O => hist_code t s' (hs_snap st)
       | _ => c            (* the first step that fails decides the code *)
